@@ -44,6 +44,46 @@ def sibling_table():
     return _SIB
 
 
+class CpuBudgetExceeded(BaseException):
+    """Raised inside the code under test when one call used more CPU time than any linear-time
+    implementation needs by orders of magnitude (virtual time of this process, not wall-clock)."""
+
+
+class cpu_budget:
+    """with cpu_budget(seconds): ...   Aborts the block with CpuBudgetExceeded when it has consumed that much
+    *CPU time* (ITIMER_VIRTUAL: user time of this process — independent of machine load).  Only armed in the main
+    thread; nested use keeps the outer timer."""
+
+    def __init__(self, seconds):
+        self.seconds = seconds
+        self.armed = False
+
+    def __enter__(self):
+        import signal
+        import threading
+        if threading.current_thread() is threading.main_thread() and signal.getitimer(signal.ITIMER_VIRTUAL)[0] == 0:
+            def on_alarm(signum, frame):
+                raise CpuBudgetExceeded("more than %d s of CPU time" % self.seconds)
+            self.old = signal.signal(signal.SIGVTALRM, on_alarm)
+            signal.setitimer(signal.ITIMER_VIRTUAL, self.seconds)
+            self.armed = True
+        return self
+
+    def __exit__(self, *a):
+        if self.armed:
+            import signal
+            signal.setitimer(signal.ITIMER_VIRTUAL, 0)
+            signal.signal(signal.SIGVTALRM, self.old)
+        return False
+
+
+def budget_for(source):
+    """CPU seconds allowed for one call on this input: 60 s + 1 s per 2000 characters (a linear implementation needs
+    well under a second for typical inputs and a few seconds for megabyte inputs, probes included)."""
+    n = len(source) if isinstance(source, str) else 0
+    return 60 + n // 2000
+
+
 def physical_lines(text):
     """Lines as the property counts them: they end at line feeds only."""
     if text == "":
@@ -96,7 +136,7 @@ def parse_observed(source, stop=False, matcher=None, parser=None, idgen=None, bu
     o.idgen = idgen
     o.ids_before = getattr(idgen, "_id_counter", None)
     parser.stop_at_first_error = stop
-    with probe.auditing() as opened, probe.observing() as obs:
+    with probe.auditing() as opened, probe.observing() as obs, cpu_budget(budget_for(source)):
         try:
             arg = source
             if as_scanner:
@@ -117,6 +157,11 @@ def parse_observed(source, stop=False, matcher=None, parser=None, idgen=None, bu
             o.exc = e
             o.exc_origin = _origin(e)
             o.tb = traceback.format_exc()[-1500:]
+        except CpuBudgetExceeded as e:  # "nothing hangs": the call did not finish within a CPU budget far above linear work
+            o.status = "crash"
+            o.exc = e
+            o.exc_origin = _origin(e)
+            o.tb = "CPU budget of %d s exceeded; stack at that moment:\n%s" % (budget_for(source), traceback.format_exc()[-1200:])
     o.opened = list(opened)
     o.log = obs.logs[-1] if obs.logs else None
     return o
@@ -463,10 +508,11 @@ def compile_observed(ast, uri="uri.feature", idgen=None):
     before = copy.deepcopy(doc)
     comp = Compiler(idgen or IdGenerator())
     try:
-        pickles = comp.compile(doc)
+        with cpu_budget(120):
+            pickles = comp.compile(doc)
         status = "ok"
         res = pickles
-    except Exception as e:
+    except (Exception, CpuBudgetExceeded) as e:
         status = "crash"
         res = {"type": type(e).__name__, "repr": repr(e)[:200], "origin": _origin(e)}
     mutated = doc != before
@@ -482,9 +528,10 @@ def enum_observed(data, uri="uri.feature", options=(True, True, True), events=No
     src = {"source": {"uri": uri, "data": data, "mediaType": "text/x.cucumber.gherkin+plain"}}
     with probe.auditing() as opened:
         try:
-            envs = list(ge.enum(src))
+            with cpu_budget(budget_for(data) + 60):
+                envs = list(ge.enum(src))
             return "ok", envs, list(opened), src
-        except Exception as e:
+        except (Exception, CpuBudgetExceeded) as e:
             return "crash", {"type": type(e).__name__, "repr": repr(e)[:200], "origin": _origin(e)}, list(opened), src
 
 
